@@ -366,7 +366,20 @@ func run(c *mon.Ctx) {
 			m.Pids()
 			m.PIDExists(8191)
 		}
+		if own := m.Pids(); len(own) >= 2 && r.Chance(5) {
+			// the list of PIDs to remove is (part of) the slice the PMT itself handed out
+			a := r.Intn(len(own) - 1)
+			bnd := a + 2 + r.Intn(len(own)-a-1)
+			rm = own[a:bnd]
+			gone = map[int]bool{}
+			for _, pid := range rm {
+				gone[pid] = true
+			}
+			c.Count("remove.list_is_own_pid_slice")
+		}
+		rmVals := append([]int{}, rm...)
 		m.RemoveElementaryStreams(rm)
+		rm = rmVals
 		var want []ref.ES
 		for _, s := range p.Streams {
 			if !gone[s.PID] {
